@@ -78,7 +78,8 @@ def _sc(draw):
             else:
                 ops.append(['yield', draw(st.integers(1, 3))])
         actors.append(ops)
-    return {'buses': buses, 'fwd': fwd, 'handlers': handlers, 'actors': actors, 'maxdepth': maxdepth, 'cap': 80, 'warm': draw(st.booleans())}
+    # with bounded histories the queue (50) / backlog (100) limits are active: keep far below them (rejection is C14's subject)
+    return {'buses': buses, 'fwd': fwd, 'handlers': handlers, 'actors': actors, 'maxdepth': maxdepth, 'cap': 24 if small_hist else 80, 'warm': draw(st.booleans())}
 
 
 def budget(tier):
